@@ -493,6 +493,19 @@ impl Function {
         )
     }
 
+    /// Check if the function reads the file it is evaluated for although none of its
+    /// arguments names a column.
+    pub fn reads_entry(&self) -> bool {
+        match self {
+            Function::Contains => true,
+            #[cfg(unix)]
+            Function::HasXattr | Function::Xattr => true,
+            #[cfg(target_os = "linux")]
+            Function::HasCapabilities | Function::HasCapability => true,
+            _ => false,
+        }
+    }
+
     /// Check if the function is a numeric function, i.e. it returns a numeric value.
     pub fn is_numeric_function(&self) -> bool {
         if self.is_aggregate_function() {
@@ -506,6 +519,7 @@ impl Function {
                 | Function::Day
                 | Function::Month
                 | Function::Year
+                | Function::DayOfWeek
                 | Function::Abs
                 | Function::Power
                 | Function::Sqrt
